@@ -163,6 +163,21 @@ Section Optim.
       let tr := x0 :: props in
       let x := match ret with None => argbest maximize f x0 (f x0) props | Some k => nth k tr x0 end in
       {| o_trace := tr; o_x := x; o_f := f x |}.
+  (** a scripted optimiser that HONOURS the box it is handed (the box part of the contract holds by construction, whatever
+      the script): every proposal is moved onto the box coordinate by coordinate before the objective is called; the start
+      is evaluated as it was handed over.  A wrapper that hands over a smaller set of bounds than the user gave (a bound
+      list dropped, an entry lost) lets such an optimiser evaluate the proposals beyond that bound as they are.
+      An empty bound list is "no bounds" (as for [box_ok]); nan is "no bound" (as for [lo_ok] / [hi_ok]). *)
+  Definition clip1 (lo hi : xnum) (x : F) : F :=
+    let x := match lo with XFin l => if x <? l then l else x | _ => x end in
+    match hi with XFin u => if u <? x then u else x | _ => x end.
+  Fixpoint clip (lo hi : list xnum) (x : list F) : list F :=
+    match x with
+    | [] => []
+    | v :: x' => clip1 (hd XNegInf lo) (hd XPosInf hi) v :: clip (tl lo) (tl hi) x'
+    end.
+  Definition scripted_clip (maximize : bool) (props : list (list F)) (ret : option nat) : optimiser :=
+    fun lo hi x0 f => scripted maximize (map (clip lo hi) props) ret lo hi x0 f.
   Definition scripted_grid (ret : option nat) : grid_optimiser :=
     fun grid f =>
       match grid with
